@@ -1,1 +1,29 @@
-fn main() { eprintln!("not built yet"); std::process::exit(2); }
+//! vp-conn: in-process monitors of `passage_protocol::connection::Connection` under virtual time
+//! (properties C01 C02 C03 C04 C06 C07 C08 C10).
+
+mod mk;
+mod scenario;
+
+use vp_common::{Cli, report};
+use vp_sim::allocmon::CountingAlloc;
+
+#[global_allocator]
+static ALLOC: CountingAlloc = CountingAlloc;
+
+fn main() {
+    let cli = Cli::parse();
+    report::watchdog(&cli.prop, if cli.tier == vp_common::Tier::Quick { 600 } else { 3600 });
+    scenario::install_panic_hook();
+    if let Err(e) = vp_common::refcrypto::self_test() {
+        println!("[{}] INCONCLUSIVE: reference crypto self-test failed: {e}", cli.prop);
+        std::process::exit(2);
+    }
+    let code = match cli.prop.as_str() {
+        "smoke" => mk::smoke(&cli),
+        other => {
+            println!("[{other}] INCONCLUSIVE: vp-conn does not serve this property");
+            2
+        }
+    };
+    std::process::exit(code);
+}
